@@ -85,6 +85,7 @@ def run(ctx):
     r4_push(ctx, facts)
     r5_whole_traversal(ctx, facts)
     r6_len_after_shrink(ctx, facts)
+    r7_sync_wrappers_only(ctx, facts, fp)
     # R3 both RefCount bodies
     for c in ('default', 'sync') + (('raw_strains', 'raw_strains+sync') if ctx.tier == 'thorough' else ()):
         nsites, nw = guardrule.check(ctx, facts[c], 'C10-R3', tag='[%s]' % c)
@@ -411,3 +412,39 @@ def r6_len_after_shrink(ctx, facts):
     ctx.control('C10-R6', 'c10::len_after_retain' in names, 'len() after a count-desynchronising retain is flagged')
     ctx.control('C10-R6', 'c10::Carry::step' in names, 'a list kept in a field: len() in a later call after a count-desynchronising retain is flagged')
     ctx.control('C10-R6', 'c10::len_before_retain' not in names, 'negative control: len() before the retain, and a count read that only sizes an allocation, are accepted')
+
+
+# ---- R7: what may differ inside util::sync is the primitive, nothing else (seed C10-7: a search helper with a `sync`-only shortcut)
+SYNC_MOD = ('util::sync::', '<util::sync::')
+WRAP_OK = ('std::rc::', '<std::rc::', 'std::sync::', '<std::sync::', 'std::cell::', '<std::cell::', 'util::sync::', '<util::sync::',
+           'std::option::Option::<T>::map', 'std::result::Result::<T, E>::unwrap', 'std::result::Result::<T, E>::expect',
+           'std::ops::FnOnce::call_once', 'std::ops::Fn::call', 'std::ops::FnMut::call_mut', 'core::panicking::', 'std::rt::', 'core::fmt::', 'std::fmt::')
+
+
+def r7_sync_wrappers_only(ctx, facts, fp):
+    """R2 lets the bodies of util::sync differ between the default and the `sync` build.  That licence covers the choice of primitive only: a body of that module that
+    differs (or exists in one configuration only) is straight-line code over Rc/Arc, RefCell/RwLock and their guards.  Anything with logic of its own — a search, a
+    shortcut, a fallback — must be the same code in both builds, where R2's fingerprint comparison sees it."""
+    base = fp.table(facts['default'])
+    n = 0
+    for c in ('sync', 'raw_strains+sync'):
+        t = fp.table(facts[c])
+        for cfg_name, F, mine, other in (('default', facts['default'], base, t), (c, facts[c], t, base)):
+            if cfg_name == 'default' and c != 'sync':
+                continue
+            for fn in F.fns:
+                if not fn.path.startswith(SYNC_MOD) or fn.j.get('cfg_test'):
+                    continue
+                if fn.path in other and other[fn.path] == mine.get(fn.path):
+                    continue
+                n += 1
+                ctx.saw(fn)
+                loops = fn.cfg.sccs()
+                alien = sorted(set((t_['func'].get('path') or t_['func'].get('name') or '?') for _, t_ in fn.calls()
+                                   if not (t_['func'].get('path') or '').startswith(WRAP_OK)))
+                key = '[%s]wrapper:%s' % (cfg_name, fn.path)
+                ctx.require(not loops and not alien, 'C10-R7', key, '%s (%s build) is a straight-line wrapper of the shared-pointer / lock primitive' % (fn.path, cfg_name), fn.where(),
+                            bad='%s has a body of its own in the %s build that %s: inside util::sync only the primitive (Rc/Arc, RefCell/RwLock, their guards) may differ '
+                                'between the builds — logic placed here escapes the comparison of the two builds' % (
+                                    fn.path, cfg_name, ('loops' if loops else 'calls ' + ', '.join(alien[:4]))))
+    ctx.floor('C10-R7', n, 16, 'feature-dependent bodies of util::sync (both directions, two sync configurations)')
